@@ -576,6 +576,10 @@ class Visitor:
             if "." in name:
                 continue
 
+            # What is forwarded from a previous member of the same name must not leak
+            # to the other targets of the same assignment (`a = b = 1`).
+            attr_labels, attr_docstring, attr_annotation = set(labels), docstring, annotation
+
             if name in parent.members:
                 # Assigning multiple times.
                 # TODO: Might be better to inspect.
@@ -584,24 +588,24 @@ class Visitor:
 
                 existing_member = parent.members[name]
                 with suppress(AliasResolutionError, CyclicAliasError):
-                    labels |= existing_member.labels
+                    attr_labels |= existing_member.labels
                     # Forward previous docstring and annotation instead of erasing them.
-                    if existing_member.docstring and not docstring:
-                        docstring = existing_member.docstring
+                    if existing_member.docstring and not attr_docstring:
+                        attr_docstring = existing_member.docstring
                     with suppress(AttributeError):
-                        if existing_member.annotation and not annotation:  # type: ignore[union-attr]
-                            annotation = existing_member.annotation  # type: ignore[union-attr]
+                        if existing_member.annotation and not attr_annotation:  # type: ignore[union-attr]
+                            attr_annotation = existing_member.annotation  # type: ignore[union-attr]
 
             attribute = Attribute(
                 name=name,
                 value=value,
-                annotation=annotation,
+                annotation=attr_annotation,
                 lineno=node.lineno,
                 endlineno=node.end_lineno,
-                docstring=docstring,
+                docstring=attr_docstring,
                 runtime=not self.type_guarded,
             )
-            attribute.labels |= labels
+            attribute.labels |= attr_labels
             parent.set_member(name, attribute)
 
             if name == "__all__":
